@@ -314,6 +314,11 @@ def corpus_c14() -> list:
                                                       w("os1", 9, "é中😀")]},
         {"name": "task_t2", "fail": False, "writes": []},
         {"name": "task_t3", "fail": False, "writes": [{"kind": "os2", "id": None, "text": "", "end": "", "flush": False}]},
+        {"name": "task_t4", "fail": False, "writes": [w("eprint", 10, "only stderr", "\n"), w("os2", 11, "raw stderr"), w("child2", 12, "kid stderr\n")]},
+        {"name": "task_t5", "fail": True, "writes": [w("ewrite", 13, "warned, no newline")]},
+        {"name": "task_t6", "fail": False, "writes": [w("owrite", 14, "py unflushed "), w("os1", 15, "fd "), w("owrite", 16, "py again"),
+                                                       w("child1", 17, "kid"), w("print", 18, "tail", "\n"),
+                                                       w("ewrite", 19, "e-py "), w("os2", 20, "e-fd "), w("ewrite", 21, "e-py2")]},
     ]
     out = []
     for i, m in enumerate(METHODS):
@@ -409,6 +414,20 @@ def task_half():
 
 raise RuntimeError("import fails")
 ''', "4::1:x", {"task_half": 1}),
+    "closer": ("task_closer.py", '''\
+import sys
+from pathlib import Path
+
+
+def task_closer(produces=Path("c.txt")):
+    produces.write_text("c")
+    print("about to close my standard output")
+    sys.stdout.close()
+
+
+def task_after(path=Path("c.txt")):
+    print("after")
+''', "6::1.2", {"task_closer": 1, "task_after": 2}),
     "cyc": ("task_cyc.py", '''\
 from pathlib import Path
 
@@ -450,21 +469,52 @@ def gen_seq(rng, idx: int, n=(2, 8)) -> dict:
         if rng.random() < 0.08:
             kw["capture"] = "bogus"   # configuration fails in pytask_parse_config
         builds.append({"sub": sub, "kw": kw})
-    return {"idx": idx, "builds": builds, "hashseed": rng.randrange(0, 1000)}
+    if rng.random() < 0.3:
+        # a task that closes sys.stdout while it is captured; last build of the process (it may wreck the interpreter's streams),
+        # never with capture=no (there it would close the caller's own stream)
+        builds.append({"sub": "closer", "kw": {"capture": rng.choice(["sys", "tee-sys", "fd"]), "verbose": 1, "force": True}})
+    return {"idx": idx, "builds": builds, "hashseed": rng.randrange(0, 1000), "tty": rng.random() < 0.25}
 
 
-def _run_worker(spec: dict, d: Path, tag: str, hashseed: int) -> dict:
+def _run_worker(spec: dict, d: Path, tag: str, hashseed: int, tty: bool = False) -> dict:
     sp = d / f"spec_{tag}.json"
     rp = d / f"res_{tag}.json"
     sp.write_text(json.dumps(spec))
     env = dict(os.environ, PYTHONHASHSEED=str(hashseed), PYTHONDONTWRITEBYTECODE="1", PYTHONUTF8="1", COLUMNS="120")
-    p = subprocess.Popen([common.PY, str(SEQ_WORKER), str(sp), str(rp)], stdin=subprocess.PIPE, stdout=subprocess.PIPE,
-                         stderr=subprocess.PIPE, env=env, cwd=str(d))
-    try:
-        p.communicate(timeout=600)   # stdin stays an open pipe until the worker exits
-    except subprocess.TimeoutExpired:
-        p.kill()
-        raise common.InfraError("C15 sequence worker timed out") from None
+    if tty:
+        # the process is attached to a (pseudo) terminal: rich draws the live table and proxies sys.stdout / sys.stderr meanwhile
+        import pty
+        import threading
+        master, slave = pty.openpty()
+        p = subprocess.Popen([common.PY, str(SEQ_WORKER), str(sp), str(rp)], stdin=slave, stdout=slave, stderr=slave, env=env,
+                             cwd=str(d), close_fds=True)
+        os.close(slave)
+
+        def drain():
+            while True:
+                try:
+                    if not os.read(master, 65536):
+                        break
+                except OSError:
+                    break
+        t = threading.Thread(target=drain, daemon=True)
+        t.start()
+        try:
+            p.wait(timeout=600)
+        except subprocess.TimeoutExpired:
+            p.kill()
+            raise common.InfraError("C15 sequence worker (pty) timed out") from None
+        finally:
+            t.join(timeout=5)
+            os.close(master)
+    else:
+        p = subprocess.Popen([common.PY, str(SEQ_WORKER), str(sp), str(rp)], stdin=subprocess.PIPE, stdout=subprocess.PIPE,
+                             stderr=subprocess.PIPE, env=env, cwd=str(d))
+        try:
+            p.communicate(timeout=600)   # stdin stays an open pipe until the worker exits
+        except subprocess.TimeoutExpired:
+            p.kill()
+            raise common.InfraError("C15 sequence worker timed out") from None
     if not rp.exists():
         raise common.InfraError(f"C15 sequence worker produced no result (rc={p.returncode})")
     res = json.loads(rp.read_text())
@@ -477,12 +527,12 @@ def run_seq(seq: dict, fresh: bool = True) -> dict:
     d = common.scratch_dir("c15")
     try:
         write_seq_project(d / "A")
-        one = _run_worker({"root": str(d / "A"), "builds": seq["builds"]}, d, "seq", seq["hashseed"])
+        one = _run_worker({"root": str(d / "A"), "builds": seq["builds"]}, d, "seq", seq["hashseed"], tty=bool(seq.get("tty")))
         out = {"inproc": one, "fresh": []}
         if fresh:
             write_seq_project(d / "B")
             for k, b in enumerate(seq["builds"]):
-                r = _run_worker({"root": str(d / "B"), "builds": [b]}, d, f"f{k}", seq["hashseed"])
+                r = _run_worker({"root": str(d / "B"), "builds": [b]}, d, f"f{k}", seq["hashseed"], tty=bool(seq.get("tty")))
                 out["fresh"].append(r["builds"][0])
         return out
     finally:
@@ -493,68 +543,67 @@ def run_seq(seq: dict, fresh: bool = True) -> dict:
 # C15: oracle
 # ------------------------------------------------------------------------------------------------
 
-def _is_capture_leftover(link: str, initial_links: set) -> bool:
-    """a descriptor a capture object may have left: a dup of an original standard stream, /dev/null, an unlinked tmpfile"""
-    return link in initial_links or link == "/dev/null" or link.endswith(" (deleted)")
+CLOSED_FILE = "ValueError: I/O operation on closed file"
+
+
+def closer_class(b: dict, rec: dict):
+    """Known findings about a task that closes sys.stdout while it is captured (sub-project `closer`):
+    F6b - capture=sys|tee-sys: capture.pytask_unconfigure (124aca8) reads the closed buffer, build() raises ValueError;
+    F6c - capture=fd: FDCapture.resume installs the closed temporary file as sys.stdout before dup2 fails, pytask's own
+          reporting then raises out of build()."""
+    if b["sub"] != "closer" or not str(rec.get("raised", "")).startswith(CLOSED_FILE):
+        return None
+    return {"sys": "F6b", "tee-sys": "F6b", "fd": "F6c"}.get(b["kw"]["capture"])
 
 
 def oracle_c15(seq: dict, obs: dict) -> list:
     """Returns [(kind, message, finding-or-None)]."""
     bad = []
-    ini = obs["inproc"]["initial"]
-    std_links = {ini["fds"].get(str(i)) for i in range(3)}
-    seen_fd_build = False      # a build with capture=fd has run in this process (F6 leaves descriptors behind)
     imported = set()           # sub-projects whose module this process has imported (F7: sys.modules keeps it)
-    counts = []
     for k, (b, rec) in enumerate(zip(seq["builds"], obs["inproc"]["builds"])):
         tag = f"build {k} ({b['sub']}, {b['kw']})"
+        cls = closer_class(b, rec)
         if "raised" in rec:
-            bad.append(("returns", f"{tag}: pytask.build raised {rec['raised']}", None))
-            continue
+            bad.append(("returns", f"{tag}: pytask.build raised {rec['raised']}", cls))
         bef, aft = rec["before"], rec["after"]
         method = b["kw"]["capture"]
-        configured = rec["exit"] != 2
-        executed = len(rec["reports"]) > 0
-        seen_fd_build = seen_fd_build or (method == "fd" and configured)
+        configured = rec.get("exit") != 2
         # --- standard streams: descriptors 0-2 and the Python objects
         for i, nm in enumerate(("stdin", "stdout", "stderr")):
             if aft["stat"][i] != bef["stat"][i]:
-                f6 = (i == 0 and method == "fd" and executed and aft["fds"].get("0") == "/dev/null")
                 bad.append(("streams", f"{tag}: descriptor {i} refers to {aft['fds'].get(str(i))!r} after the build, before {bef['fds'].get(str(i))!r}",
-                            "F6" if f6 else None))
+                            cls if cls == "F6c" else None))
             if aft["std_same"][i] != bef["std_same"][i] or (not aft["std_same"][i] and aft["std_type"][i] != bef["std_type"][i]):
-                f6 = (i == 0 and method in ("fd", "sys") and executed and aft["std_type"][0] == "DontReadFromInput")
-                bad.append(("streams", f"{tag}: sys.{nm} is a {aft['std_type'][i]} after the build", "F6" if f6 else None))
+                # F6b: the aborted unconfigure leaves only sys.stdin (capture=sys) behind; anything else is new
+                known = cls if (cls == "F6c" or (cls == "F6b" and i == 0 and method == "sys" and aft["std_type"][0] == "DontReadFromInput")) else None
+                bad.append(("streams", f"{tag}: sys.{nm} is a {aft['std_type'][i]} after the build", known))
         # --- the rest of the process state
         for key, what in (("cwd", "working directory"), ("filters", "warnings.filters"), ("set_trace_same", "pdb.set_trace"),
                           ("collected", "COLLECTED_TASKS"), ("prov", "TASKS_WITH_PROVISIONAL_NODES"), ("pdb_saved", "PytaskPDB._saved"),
                           ("report_vars", "ExecutionReport/Traceback class variables")):
             if aft[key] != bef[key]:
-                bad.append(("misc", f"{tag}: {what} changed: {bef[key]!r} -> {aft[key]!r}", None))
+                # F6c: the exception escapes before pytask_unconfigure runs, so nothing is restored
+                bad.append(("misc", f"{tag}: {what} changed: {bef[key]!r} -> {aft[key]!r}", cls if cls == "F6c" else None))
         # --- open descriptors: constant from the second build on
-        counts.append(len(aft["fds"]))
-        db_first = not any(l.endswith(".sqlite3") for l in bef["fds"].values())   # the database is opened once per process
-        allowed = 1 if (db_first and any(l.endswith(".sqlite3") for l in aft["fds"].values())) else 0
-        if k >= 1 and len(aft["fds"]) > len(bef["fds"]) + allowed:
+        if k >= 1 and len(aft["fds"]) > len(bef["fds"]):
             new = [l for fd, l in aft["fds"].items() if fd not in bef["fds"] or bef["fds"][fd] != l]
             grown_by = len(aft["fds"]) - len(bef["fds"])
-            f6 = seen_fd_build and all(_is_capture_leftover(l, std_links) or l.endswith(".sqlite3") for l in new)
             bad.append(("leak", f"{tag}: {grown_by} more open descriptors than before this build ({len(bef['fds'])} -> {len(aft['fds'])}); new: {sorted(new)}",
-                        "F6" if f6 else None))
+                        cls if cls == "F6c" else None))
         # --- same outcomes as a build in a fresh process
         if obs["fresh"]:
             fr = obs["fresh"][k]
-            mine = (rec["exit"], rec["tasks"], sorted(map(tuple, rec["reports"])))
+            mine = (rec.get("exit"), rec.get("tasks"), sorted(map(tuple, rec.get("reports", []))))
             theirs = (fr.get("exit"), fr.get("tasks"), sorted(map(tuple, fr.get("reports", []))))
             if mine != theirs:
                 finding = None
                 fname = {"dec": "foo"}.get(b["sub"])
-                if b["sub"] == "dec" and "dec" in imported:
+                if b["sub"] == "dec" and "dec" in imported and "raised" not in rec and "raised" not in fr:
                     # F7: exactly the @task-decorated function is missing, everything else equal
                     if rec["tasks"] == [t for t in fr["tasks"] if t != fname] and \
                             [r for r in theirs[2] if r[0] != fname] == mine[2] and rec["exit"] == fr["exit"]:
                         finding = "F7"
-                if b["sub"] == "badimp" and "badimp" in imported and fr["exit"] == 3 and fr["tasks"] == []:
+                if b["sub"] == "badimp" and "badimp" in imported and fr.get("exit") == 3 and fr.get("tasks") == []:
                     # F7 (same cause): the half-initialised module is served from sys.modules, its import error is gone
                     finding = "F7"
                 bad.append(("samebuilds", f"{tag}: in-process exit/tasks/outcomes {mine!r} but in a fresh process {theirs!r}", finding))
@@ -578,8 +627,8 @@ def model_c15(drv, seq: dict, obs: dict) -> list:
     st0 = drv.ask("capture.state")
     m0 = dict(kv.split("=", 1) for kv in st0.split())
     for k, (b, rec) in enumerate(zip(seq["builds"], obs["inproc"]["builds"])):
-        if "raised" in rec:
-            continue
+        if "raised" in rec or b["sub"] == "closer":
+            break   # closed stream objects are outside the model
         sub = b["sub"]
         _, _, modspec, fnids = SUBS[sub]
         method = b["kw"]["capture"]
@@ -632,17 +681,22 @@ def model_c15(drv, seq: dict, obs: dict) -> list:
 
 
 def canon_c15(seq: dict) -> list:
-    return [[b["sub"], sorted(b["kw"].items())] for b in seq["builds"]]
+    return [[b["sub"], sorted(b["kw"].items())] for b in seq["builds"]] + (["tty"] if seq.get("tty") else [])
 
 
 def corpus_c15() -> list:
-    """F6 and F7 witnesses (DESIGN §6) + one sequence per capture method."""
+    """F6 (fixed by 124aca8: must pass) and F7 witnesses + one sequence per capture method + the closed-stream scenarios."""
     def b(sub, **kw):
         kw.setdefault("capture", "fd")
         kw.setdefault("verbose", 1)
         return {"sub": sub, "kw": kw}
     return [
-        {"idx": -1, "hashseed": 1, "builds": [b("ok", force=True)] * 6},                                   # F6: leak trend, stdin
+        {"idx": -1, "hashseed": 1, "builds": [b("ok", force=True)] * 6},                                   # F6 witness (fixed): leak trend, stdin
+        {"idx": -8, "hashseed": 8, "tty": True, "builds": [b("ok", capture="no", force=True), b("fail", capture="no"), b("cyc", capture="no"),
+                                                            b("ok", capture="fd", force=True, verbose=2), b("badimp", capture="no")]},
+        {"idx": -5, "hashseed": 5, "builds": [b("ok", capture="sys"), b("closer", capture="sys", force=True)]},
+        {"idx": -6, "hashseed": 6, "builds": [b("ok", capture="tee-sys"), b("closer", capture="tee-sys", force=True)]},
+        {"idx": -7, "hashseed": 7, "builds": [b("ok", capture="fd"), b("closer", capture="fd", force=True)]},
         {"idx": -2, "hashseed": 2, "builds": [b("dec", capture="no"), b("dec", capture="no"), b("dec", capture="no")]},   # F7
         {"idx": -3, "hashseed": 3, "builds": [b("badimp", capture="no"), b("badimp", capture="no")]},       # F7, failing import
         {"idx": -4, "hashseed": 4, "builds": [b("ok", capture="sys"), b("fail", capture="sys"), b("ok", capture="tee-sys", dry_run=True),
@@ -658,6 +712,7 @@ def check_c15(ctx, drv, seq, obs) -> None:
     for rec in obs["inproc"]["builds"]:
         ctx.dist[f"exit:{rec.get('exit')}"] += 1
     ctx.dist[f"len:{len(seq['builds'])}"] += 1
+    ctx.dist["terminal:pty" if seq.get("tty") else "terminal:pipes"] += 1
     sample = {"builds": canon_c15(seq)[:4], "exits": [r.get("exit") for r in obs["inproc"]["builds"]],
               "fd_counts": [len(r["after"]["fds"]) for r in obs["inproc"]["builds"]]}
     ctx.case(canon_c15(seq), len(seq["builds"]) >= 2 and any(len(r.get("reports", [])) > 0 for r in obs["inproc"]["builds"]), sample)
